@@ -23,4 +23,4 @@ def _cit_wf(e, st, c):
     grp = e.load_field(st, c, "groups")
     idx = e.load_field(st, c, "index")
     mw = _metadata_wf(e, st, c)
-    return SV(BOOL, And(Not(c.none), Not(tok.none), e.class_in(tok.v, "Token"), Not(grp.none), Not(idx.none), mw.v))
+    return SV(BOOL, And(Not(c.none), e.class_in(c.v, "CitationBase"), Not(tok.none), e.class_in(tok.v, "Token"), Not(grp.none), Not(idx.none), mw.v))
